@@ -119,6 +119,10 @@ type Inject struct {
 	RawHex    string          `json:"raw_hex,omitempty"` // deliver these bytes instead of a built reply
 	PrevRun   bool            `json:"prev_run,omitempty"` // build the reply for the probe AnswerTTL of the previous run on this wire (stale traffic)
 	AliasTTL  int             `json:"alias_ttl,omitempty"`
+	// Noise: instead of the built reply deliver its mutation(s) of this kind; NoiseArg -1 = every variant, 1us apart
+	NoiseKind string           `json:"noise_kind,omitempty"`
+	NoiseArg  int              `json:"noise_arg,omitempty"`
+	Rewrite   []simnet.Perturb `json:"rewrite,omitempty"` // applied before the noise mutation (e.g. move the reply to a foreign flow)
 }
 
 type Scn struct {
@@ -441,6 +445,27 @@ func (s *Script) OnProbe(n *simnet.Net, sink *simnet.Sink, p *refcodec.Packet, r
 				}
 			}
 		}
+		for _, rw := range in.Rewrite {
+			var err error
+			b, err = rw.Apply(b)
+			if err != nil {
+				panic(fmt.Sprintf("rewrite %+v on %s: %v", rw, in.Form, err))
+			}
+		}
+		if in.NoiseKind != "" {
+			lo, hi := in.NoiseArg, in.NoiseArg+1
+			if in.NoiseArg < 0 {
+				lo, hi = 0, NoiseCount(in.NoiseKind, b)
+			}
+			for a := lo; a < hi; a++ {
+				nb := NoiseApply(in.NoiseKind, b, a)
+				if len(nb) == 0 {
+					continue
+				}
+				out = append(out, simnet.Reply{DelayNs: int64(in.DelayUs)*1000 + int64(a-lo)*1000, Raw: nb, Meta: simnet.Meta{ToTTL: -1, Tag: in.Tag, From: from, Flow: sink.ID}})
+			}
+			continue
+		}
 		b = finish(b, in.Truncate, in.Mutate)
 		d := int64(in.DelayUs) * 1000
 		gen, ans := in.Genuine, in.AnswerTTL
@@ -590,6 +615,19 @@ func Listen(n *simnet.Net, sc *Scn) (uint16, error) {
 	li, err := n.Listen(netip.AddrPortFrom(SackAddr, 0), spec)
 	if err != nil {
 		return 0, err
+	}
+	li.Mutate = func(kind string, arg int, raw []byte) [][]byte {
+		lo, hi := arg, arg+1
+		if arg < 0 {
+			lo, hi = 0, NoiseCount(kind, raw)
+		}
+		var out [][]byte
+		for a := lo; a < hi; a++ {
+			if nb := NoiseApply(kind, raw, a); len(nb) > 0 {
+				out = append(out, nb)
+			}
+		}
+		return out
 	}
 	return li.Addr.Port(), nil
 }
